@@ -219,19 +219,39 @@ func stripDocs(v any) {
 	}
 }
 
-// failureSig: the signature a failing outcome is reported under ("" = no failure).
+// failure is one way in which an outcome violates the property.
+type failure struct{ Sig, Impl, Expected string }
+
+// failures lists what is wrong with an outcome, most severe first. An output that does not compile — the
+// output of ANY of the processes — is a failure of its own, reported next to (and before) the fact that the
+// processes' outputs differ: a generator that finds a package cycle only when its map-ordered walk starts at
+// the right type shows both, and the first must not hide behind the second.
+func failures(o *outcome) []failure {
+	if o.GenErr != "" {
+		return []failure{{sigGenFail, o.GenErr, "generation succeeds"}}
+	}
+	var fs []failure
+	if o.BuildErr != "" {
+		fs = append(fs, failure{sigCompile + ": " + errClass(o.BuildErr), o.BuildErr,
+			"go build of every generated package succeeds, for the output of every process"})
+	}
+	if len(o.Diffs) > 0 {
+		sig := sigDiffData
+		if o.SetDiff {
+			sig = sigDiffSet
+		}
+		fs = append(fs, failure{sig, strings.Join(o.Diffs, " "), "byte-identical output trees in every process"})
+	}
+	if o.BuildErr == "" && o.VetErr != "" {
+		fs = append(fs, failure{sigVet, o.VetErr, "go vet of every generated package is clean, for the output of every process"})
+	}
+	return fs
+}
+
+// failureSig: the signature a failing outcome is first reported under ("" = no failure).
 func failureSig(o *outcome) string {
-	switch {
-	case o.GenErr != "":
-		return sigGenFail
-	case len(o.Diffs) > 0 && o.SetDiff:
-		return sigDiffSet
-	case len(o.Diffs) > 0:
-		return sigDiffData
-	case o.BuildErr != "":
-		return sigCompile + ": " + errClass(o.BuildErr)
-	case o.VetErr != "":
-		return sigVet
+	if fs := failures(o); len(fs) > 0 {
+		return fs[0].Sig
 	}
 	return ""
 }
